@@ -32,8 +32,9 @@ int main(int argc,char**argv){ seed=argc>1?strtoull(argv[1],0,0):1; struct sigac
   for(int round=0; round<4 && !viol; round++) for(int api=0; api<3 && !viol; api++) for(int c=0;c<3 && !viol;c++) for(int past=1; past>=0 && !viol; past--){
     r^=r<<13; r^=r>>7; r^=r<<17;
     int64_t d = past ? -(int64_t)(1+r%2000000000ull) : 40000000ll;
+    uint64_t t0=now_ns();      // read before the deadline is computed: a preemption between the two only makes the wait look longer
     dispatch_time_t t=on_clock(c,d);
-    atomic_store(&cur_api,api); atomic_store(&cur_clock,c); atomic_store(&cur_past,past); uint64_t t0=now_ns(); atomic_store(&started_ms,(long)(t0/1000000)); atomic_store(&waiting,1);
+    atomic_store(&cur_api,api); atomic_store(&cur_clock,c); atomic_store(&cur_past,past); atomic_store(&started_ms,(long)(t0/1000000)); atomic_store(&waiting,1);
     long rc = api==0 ? dispatch_semaphore_wait(s,t) : api==1 ? dispatch_group_wait(g,t) : dispatch_block_wait(b,t);
     atomic_store(&waiting,0); uint64_t el=now_ns()-t0; n++;
     if(rc==0){ viol=1; snprintf(msg,sizeof msg,"%s returned 0 although nothing was signalled: clock %s",API[api],CL[c]); }
